@@ -114,6 +114,32 @@ func CheckC19Series(c C19Series, rec *Rec) error {
 			return fmt.Errorf("the accessors reordered the receiver: element %d was %v, is %v", i, c.X[i], x[i])
 		}
 	}
+	if n >= 2 {
+		// the same slice (same backing array, same length) holds other values now: every statistic is a function of the
+		// values it is asked about
+		neg := make([]float64, n)
+		for i := range x {
+			x[i] = -x[i]
+			neg[n-1-i] = -sorted[i]
+		}
+		for _, q := range []struct {
+			name string
+			f    func() float64
+			want float64
+		}{{"Median", x.Median, refQuantile(neg, 0.5)}, {"Q25", x.Q25, refQuantile(neg, 0.25)}, {"Q75", x.Q75, refQuantile(neg, 0.75)},
+			{"Min", x.Min, neg[0]}, {"Max", x.Max, neg[n-1]}} {
+			v, err := call(q.name, q.f)
+			if err != nil {
+				return fmt.Errorf("%v (after the values of the series were negated in place)", err)
+			}
+			if v != q.want && !(math.IsNaN(v) && math.IsNaN(q.want)) {
+				return fmt.Errorf("after the values of the series were negated in place: %s = %v, definition gives %v (n=%d)", q.name, v, q.want, n)
+			}
+		}
+		for i := range x {
+			x[i] = -x[i]
+		}
+	}
 	if n == 0 {
 		rec.Class("empty series")
 		for name, v := range got {
